@@ -347,6 +347,9 @@ class ShapeDomain(EventsMixin, Domain):
         if dims_of(a.d) is not None:
           return a.d
       return UNK
+    if name in ('flatnonzero', 'argwhere') and d0 is not None and \
+            name == 'flatnonzero':
+      return arr('?')        # index vector of unknown length
     if name == 'atleast_2d' and d0 is not None:
       return a0.d if len(d0) >= 2 else ('arr', (1,) * (2 - len(d0)) + d0)
     if name == 'cov' and d0 is not None and len(d0) == 2:
